@@ -10,6 +10,9 @@ CLAIMS = {
  'C03': "For every index form of C01/C02 (1-3 dims, scalars, lists, masks, slices, dicts, full N-d masks, positional), scalar / array / broadcast right-hand sides, both inplace settings and all (array kind, assigned kind) pairs among bool/int/float/object/str, the real assignment code runs symbolically; z3 discharges 'exactly the addressed cells hold the assigned values, everything else (cells, labels, dims, attrs, original when inplace=False) is unchanged, read-back returns what was written'.",
  'C04': "For every pair of dimension lists drawn from a pool (0-2 dims per operand in the quick tier, every overlap pattern and order), 1-3 labels per shared axis, int/float/str label kinds and the six operators, the real operator / align / broadcast code runs symbolically over all label values of both operands (equal, nested, overlapping, disjoint, any order) and all data; z3 discharges 'dims = a.dims + new dims of b, shared axes = set union each once, cell = a op b where both defined else NaN'; scalar, 0-d and ndarray operands in both orders.",
  'C06': "For 1-3 input arrays (and a Dataset among them) with every dimension-overlap pattern, 0-3 labels per axis, join in {outer, inner}, sort in {False, True}, axis=None or a name, align() runs symbolically over all label values and data; z3 discharges 'identical axes on shared dims, label set = union / intersection each once, sorted-direction rule, own data at own labels and NaN elsewhere, foreign dims and inputs untouched'.",
+ 'C08': "For every reduction (sum, prod, mean, var, std, min, max, ptp, all, any, median, percentile), shapes with sizes 1-3 in 1-4 dims, axis given by name / position / negative position / tuple of names or positions in any order / None, both skipna settings and float/int/bool data, the real reduction code runs symbolically over all data values and all NaN patterns (symbolic NaN bits up to 6 cells); z3 discharges 'each output cell == the NumPy kernel on the designated fibre, remaining axes in original order, metadata kept, DimArray whenever an axis remains'.",
+ 'C09': "For cumsum / cumprod (default, named, positional axis), diff (three schemes x keepaxis x n in 1..3 x axis sizes 1-5, numeric and str labels) and argmin / argmax (whole array and per axis, ties, NaNs, skipna) in 1-3 dims, the real code runs symbolically over all labels and data; z3 discharges the prefix-fold, n-th difference + relabelling / NaN padding, and 'returned labels index an extremal cell' obligations.",
+ 'C10': "For every shape in the bound (0-4 dims, equal and distinct lengths) and every permutation / axis pair / roll / insertion position / squeeze / repeat / broadcast target / broadcast_arrays group, by name and by position, the real rearrangement code runs on symbolic labels and data (one path per case); z3 discharges the coordinate-wise obligation for all label and data values.",
  'C07': "For every structural case (axis length 1-4, 0-3 new labels, axis position in 1-3 dims, list/ndarray/Axis argument, fill value, raise_error, method) reindex_axis / reindex_like run symbolically over all old label orders and all new labels (subset, superset, disjoint, permuted, repeated); z3 discharges 'axis == new labels, slice at a new label == old slice if present else fill'.",
  'C02': "For every structural case (axis length 0-5, direction, step, open/closed bounds, label kind, neighbouring index kinds) the real slicing code is executed symbolically over all label / bound / data values and z3 discharges the inclusive-box obligation on every path.",
 }
